@@ -857,6 +857,11 @@ package argmapper
 //@ immutable Value.Name, Value.Type, Value.Subtype, valueInternal.index
 
 //@ ghostvar reqs set[any]
+// outs: the output vertices this function advertises; served: the labels the
+// result lookup of outputValues can serve (one per output name, one per type-only
+// output TYPE: the entry of the lookup map, with that entry's subtype)
+//@ ghostvar outs set[any]
+//@ ghost served(f *Func, b any) bool = exists(k, string, has(f.output.namedValues, k) && b == hashV(k, f.output.namedValues[k].Type, f.output.namedValues[k].Subtype)) || exists(t, reflect.Type, has(f.output.typedValues, t) && b == hashO(t, f.output.typedValues[t].Subtype))
 //@ func (*Func).graph
 //@   requires g != nil && wf0(g) && gOK(g) && funcOK(f) && has(g.hash, hc(root)) && hkind(hc(root)) == 5
 //@   ensures  [graph-kept-well-formed] wf(g) && gOK(g) && sameRefs(g)
@@ -868,10 +873,14 @@ package argmapper
 //@   ensures  [no-new-roots] forall(k, any, imp(has(g.hash, k) && !old(has(g.hash, k)), !typeis(g.hash[k], *rootVertex)))
 //@   ensures  [requirements-linked] forall(b, any, imp(in(b, reqs), edge(g, hc(result), b)))
 //@   ensures  [requirements-in-set] forall(j, int, imp(0 <= j && j < len(f.input.values), in(vhash(f.input.values[j]), reqs)))
-//@   assigns  graph.Graph, Outer, Inner, HashM, valueVertex, typedArgVertex, typedOutputVertex, funcVertex, []interface{}, reqs
+//@   ensures  [advertised-outputs-are-the-ones-the-result-lookup-serves] forall(b, any, imp(in(b, outs), served(f, b)))
+//@   assigns  graph.Graph, Outer, Inner, HashM, valueVertex, typedArgVertex, typedOutputVertex, funcVertex, []interface{}, reqs, outs
 //@   modifies g, g.adjacencyOut, g.adjacencyIn, g.hash, forall(m, Inner, infoot(g, m))
 //@   tail-split
 //@   after "vertex := g.Add(&funcVertex{" set reqs = emptyset(any)
+//@   after "vertex := g.Add(&funcVertex{" set outs = emptyset(any)
+//@   after "g.AddEdge(g.Add(&valueVertex{" set outs = add(outs, hashV(k, f.Type, f.Subtype))
+//@   after "g.AddEdgeWeighted(g.Add(&typedOutputVertex{" set outs = add(outs, hashO(f.Type, f.Subtype))
 //@   after "g.AddEdge(vertex, g.Add(&valueVertex{" set reqs = add(reqs, vhash(val))
 //@   after "g.AddEdgeWeighted(vertex, g.Add(&typedArgVertex{" set reqs = add(reqs, vhash(val))
 //@   after "g.AddEdge(vertex, g.Add(&valueVertex{" assert [named-requirement-linked] edge(g, hc(vertex), vhash(val))
@@ -887,6 +896,9 @@ package argmapper
 //@   loop 1 invariant forall(a, any, b, any, imp(old(edge(g, a, b)), edge(g, a, b)))
 //@   loop 1 invariant [linked-set] forall(b, any, imp(in(b, reqs), edge(g, hc(vertex), b)))
 //@   loop 1 invariant [requirements-in-set] forall(j, int, imp(0 <= j && j < idx1, in(vhash(f.input.values[j]), reqs)))
+//@   loop 1 invariant outs == emptyset(any)
+//@   loop 2 invariant [outs-served] forall(b, any, imp(in(b, outs), served(as(vertex, *funcVertex).Func, b)))
+//@   loop 3 invariant [outs-served] forall(b, any, imp(in(b, outs), served(as(vertex, *funcVertex).Func, b)))
 //@   loop 2 invariant wf(g) && sameRefs(g)
 //@   loop 2 invariant gOK(g)
 //@   loop 2 invariant funcOK(as(vertex, *funcVertex).Func)
